@@ -235,6 +235,9 @@ func (f *forest) expand(v interface{}, clock TS, next *uint32) *node {
 		}
 		sort.Strings(keys)
 		for _, k := range keys {
+			if x[k] == nil {
+				continue // a null member has no node (it cannot be stored) and takes no identity
+			}
 			n.members[k] = &member{clock: clock, n: f.expand(x[k], clock, next)}
 		}
 		return n
@@ -243,6 +246,9 @@ func (f *forest) expand(v interface{}, clock TS, next *uint32) *node {
 		f.containers[id] = n
 		anchor := HeadID
 		for _, e := range x {
+			if e == nil {
+				continue
+			}
 			c := f.expand(e, clock, next)
 			n.seq.insert(anchor, []TS{c.id}, []interface{}{c}, clock)
 			anchor = c.id
